@@ -3,6 +3,8 @@
 #include <amgcl/preconditioner/schur_pressure_correction.hpp>
 #include <amgcl/preconditioner/cpr.hpp>
 #include <amgcl/preconditioner/dummy.hpp>
+#include <amgcl/adapter/block_matrix.hpp>
+#include <amgcl/value_type/static_matrix.hpp>
 #include <amgcl/deflated_solver.hpp>
 #include <amgcl/make_solver.hpp>
 #include <amgcl/amg.hpp>
@@ -39,15 +41,20 @@ static void schur_case(const Pattern &p, hx::Rng &rng, unsigned mask, int type, 
         { Mat kup=dense_of(*P.Kup), kpu=dense_of(*P.Kpu), kuu=dense_of(P.U->system_matrix()), kpp=dense_of(P.P->system_matrix()); if (adjust_p==2) kpp=dense_of(*P.Lm); if (adjust_p==1) for (size_t i=0;i<pi.size();++i) kpp[i][i]=kpp[i][i]+(*P.Ld)[i];
           Vec got, ref; for (size_t a=0;a<ui.size();++a) { for (size_t b=0;b<ui.size();++b) { got.push_back(kuu[a][b]); ref.push_back(Kd[ui[a]][ui[b]]); } for (size_t b=0;b<pi.size();++b) { got.push_back(kup[a][b]); ref.push_back(Kd[ui[a]][pi[b]]); } } for (size_t a=0;a<pi.size();++a) { for (size_t b=0;b<ui.size();++b) { got.push_back(kpu[a][b]); ref.push_back(Kd[pi[a]][ui[b]]); } for (size_t b=0;b<pi.size();++b) { got.push_back(kpp[a][b]); ref.push_back(Kd[pi[a]][pi[b]]); } }
           hx::prove_eq_vec("extracted Kuu/Kup/Kpu/Kpp reassemble to the original matrix", got, ref); }
+        // the matrix-free Schur operator the pressure solver iterates with:  spmv(alpha, x, beta, y) = alpha S x + beta y  with  S = Kpp - Kpu Kuu^-1 Kup  (for every adjust_p)
+        { int np=pi.size(), nu=ui.size(); Mat kuu(nu,Vec(nu)), kup(nu,Vec(np)), kpu(np,Vec(nu)), kpp(np,Vec(np)); for (int a=0;a<nu;++a) { for (int b=0;b<nu;++b) kuu[a][b]=Kd[ui[a]][ui[b]]; for (int b=0;b<np;++b) kup[a][b]=Kd[ui[a]][pi[b]]; } for (int a=0;a<np;++a) { for (int b=0;b<nu;++b) kpu[a][b]=Kd[pi[a]][ui[b]]; for (int b=0;b<np;++b) kpp[a][b]=Kd[pi[a]][pi[b]]; }
+          scalar al=var("alpha",-0.75), bt=var("beta",0.5); Vec xs=hx::sym_vector("sx",np), ys=hx::sym_vector("sy",np,0.5); NV Xv=hx::to_numa(xs), Yv=hx::to_numa(ys); P.spmv(al,Xv,bt,Yv);
+          Vec w = nu ? dense_solve(kuu,mv(kup,xs)) : Vec(); Vec kw = nu ? mv(kpu,w) : Vec(np,scalar(0)); Vec kx=mv(kpp,xs), ref; for (int i=0;i<np;++i) ref.push_back(al*(kx[i]-kw[i])+bt*ys[i]);
+          hx::prove_eq_vec("Schur operator: spmv(alpha, x, beta, y) = alpha (Kpp - Kpu Kuu^-1 Kup) x + beta y", hx::to_vec(Yv), ref); }
         if (type==1) hx::prove_eq_vec("type 1 with exact inner solves is the exact inverse: K * apply(f) = f", mv(Kd,x), f);
         else { // block upper triangular:  S p = f_p ,  Kuu u + Kup p = f_u   with S = Kpp - Kpu Kuu^-1 Kup
             Vec pu, pp; for (int i : ui) pu.push_back(x[i]); for (int i : pi) pp.push_back(x[i]); Vec l1, r1; for (size_t a=0;a<ui.size();++a) { scalar s=0; for (size_t b=0;b<ui.size();++b) s+=Kd[ui[a]][ui[b]]*pu[b]; for (size_t b=0;b<pi.size();++b) s+=Kd[ui[a]][pi[b]]*pp[b]; l1.push_back(s); r1.push_back(f[ui[a]]); } hx::prove_eq_vec("type 2: Kuu u + Kup p = f_u", l1, r1);
             Mat kuu(ui.size(),Vec(ui.size())); for (size_t a=0;a<ui.size();++a) for (size_t b=0;b<ui.size();++b) kuu[a][b]=Kd[ui[a]][ui[b]]; Vec kp(ui.size()); for (size_t a=0;a<ui.size();++a) { scalar s=0; for (size_t b=0;b<pi.size();++b) s+=Kd[ui[a]][pi[b]]*pp[b]; kp[a]=s; } Vec w=dense_solve(kuu,kp); Vec l2, r2; for (size_t a=0;a<pi.size();++a) { scalar s=0; for (size_t b=0;b<pi.size();++b) s+=Kd[pi[a]][pi[b]]*pp[b]; for (size_t b=0;b<ui.size();++b) s-=Kd[pi[a]][ui[b]]*w[b]; l2.push_back(s); r2.push_back(f[pi[a]]); } hx::prove_eq_vec("type 2: (Kpp - Kpu Kuu^-1 Kup) p = f_p", l2, r2); } }); }
 
 // CPR: x = S f + Scatter P (Fpp (f - A S f)) ; pressure matrix = first-row-of-inverse-diagonal-block weighting of A
-static void cpr_case(const Pattern &pb, hx::Rng &rng, int B, int active_blocks) { hx::run_case("cpr/b"+std::to_string(B)+"/act"+std::to_string(active_blocks)+"/"+pb.name, [&]() { hx::Rng r2(rng.s); int nb=pb.n, n=nb*B;
+template<template<class> class SRelax> static void cpr_case(const Pattern &pb, hx::Rng &rng, int B, int active_blocks, const char *sname) { hx::run_case(std::string("cpr/")+sname+"/b"+std::to_string(B)+"/act"+std::to_string(active_blocks)+"/"+pb.name, [&]() { hx::Rng r2(rng.s); int nb=pb.n, n=nb*B;
     SCrs K; K.n=K.m=n; K.ptr.push_back(0); for (int I=0;I<nb;++I) for (int r=0;r<B;++r) { for (ptrdiff_t k=pb.ptr[I];k<pb.ptr[I+1];++k) for (int c=0;c<B;++c) { int i=I*B+r, j=pb.col[k]*B+c; double v = i==j ? 6.0+r2.below(4)/2.0+B : (pb.col[k]==I ? (r2.below(5)-2)/4.0 : -(1+r2.below(6))/8.0); if (v==0 && i!=j) v=0.125; K.col.push_back(j); K.val.push_back(scalar(v)); } K.ptr.push_back(K.col.size()); }
-    auto Km=hx::to_amgcl(K); typedef amgcl::relaxation::as_preconditioner<BE,amgcl::relaxation::spai0> PP; typedef amgcl::relaxation::as_preconditioner<BE,amgcl::relaxation::ilu0> SPc; typedef amgcl::preconditioner::cpr<PP,SPc> CPR; CPR::params prm; prm.block_size=B; prm.active_rows = active_blocks ? active_blocks*B : 0;
+    auto Km=hx::to_amgcl(K); typedef amgcl::relaxation::as_preconditioner<BE,amgcl::relaxation::spai0> PP; typedef amgcl::relaxation::as_preconditioner<BE,SRelax> SPc; typedef amgcl::preconditioner::cpr<PP,SPc> CPR; typename CPR::params prm; prm.block_size=B; prm.active_rows = active_blocks ? active_blocks*B : 0;
     CPR C(*Km,prm); int N = prm.active_rows ? prm.active_rows : n; int np=N/B; Mat Kd=K.dense(); Vec f=hx::sym_vector("f",n);
     // weights: row ip of Fpp times the diagonal block = e_1^T
     { Mat F=dense_of(*C.Fpp); Vec got, ref; for (int ip=0;ip<np;++ip) for (int j=0;j<B;++j) { scalar s=0; for (int i=0;i<B;++i) s+=F[ip][ip*B+i]*Kd[ip*B+i][ip*B+j]; got.push_back(s); ref.push_back(scalar(j==0?1:0)); } hx::prove_eq_vec("CPR: weighting row * diagonal block = e_1^T (first row of the inverse of the diagonal block)", got, ref);
@@ -56,10 +63,24 @@ static void cpr_case(const Pattern &pb, hx::Rng &rng, int B, int active_blocks) 
       Mat App=dense_of(C.P->system_matrix()); Vec g2, r2; for (int ip=0;ip<np;++ip) for (int jp=0;jp<np;++jp) { scalar s=0; for (int i=0;i<B;++i) s+=F[ip][ip*B+i]*Kd[ip*B+i][jp*B]; g2.push_back(App[ip][jp]); r2.push_back(s); } hx::prove_eq_vec("CPR: pressure matrix = weighted first-unknown columns of A", g2, r2); }
     // action
     auto act=[&](const CPR &Cx) { NV F=hx::to_numa(f), X(n,false); for (int i=0;i<n;++i) X[i]=hx::junk("x"+std::to_string(i)); Cx.apply(F,X); return hx::to_vec(X); };
-    Vec x=act(C); { NV F=hx::to_numa(f), S1(n,false); for (int i=0;i<n;++i) S1[i]=scalar(0); C.S->apply(F,S1); Vec s1=hx::to_vec(S1); Vec As=mv(Kd,s1), rs(n); for (int i=0;i<n;++i) rs[i]=f[i]-As[i]; Mat Fd=dense_of(*C.Fpp), Sc=dense_of(*C.Scatter); Vec rp=mv(Fd,rs); NV RP=hx::to_numa(rp), XP(np,false); for (int i=0;i<np;++i) XP[i]=scalar(0); C.P->apply(RP,XP); Vec sx=mv(Sc,hx::to_vec(XP)); Vec ref(n); for (int i=0;i<n;++i) ref[i]=s1[i]+sx[i];
+    Vec x=act(C); { NV F=hx::to_numa(f), S1(n,false); for (int i=0;i<n;++i) S1[i]=scalar(0); C.S->apply(F,S1); Vec s1=hx::to_vec(S1); Vec As=mv(Kd,s1), rs(n); for (int i=0;i<n;++i) rs[i]=f[i]-As[i]; Mat Fd=dense_of(*C.Fpp), Sc=dense_of(*C.Scatter); Vec rsa(rs.begin(),rs.begin()+Fd[0].size()); /* Fpp has one column per ACTIVE row */ Vec rp=mv(Fd,rsa); NV RP=hx::to_numa(rp), XP(np,false); for (int i=0;i<np;++i) XP[i]=scalar(0); C.P->apply(RP,XP); Vec sx=mv(Sc,hx::to_vec(XP)); Vec ref(n); for (int i=0;i<n;++i) ref[i]=s1[i]+sx[i];
+      { bool allzero=true; for (auto &v : rs) allzero=allzero&&hx::same_handle(v,scalar(0)); hx::count(allzero ? "CPR cases whose global stage is exact (pressure stage sees a zero residual)" : "CPR cases with a non-trivial pressure stage"); }
       hx::prove_eq_vec("CPR: x = S f + Scatter P (Fpp (f - A S f))", x, ref); Vec sg, sr; for (int i=0;i<n;++i) for (int j=0;j<np;++j) { bool want = (i<N && i%B==0 && i/B==j); sg.push_back(Sc[i][j]); sr.push_back(scalar(want?1:0)); } hx::prove_eq_vec("CPR: Scatter injects the pressure correction into the first unknown of each active block", sg, sr); }
     // partial update with an unchanged matrix leaves the action unchanged
     { C.partial_update(*Km,true); Vec x2=act(C); hx::prove_eq_vec("CPR: partial update with the unchanged matrix leaves the action unchanged", x2, x); C.partial_update(*Km,false); Vec x3=act(C); hx::prove_eq_vec("CPR: partial update (transfer operators kept) with the unchanged matrix leaves the action unchanged", x3, x); } }); }
+
+// CPR with a BLOCK-VALUED flow backend (static_matrix<B,B>): same formulas, separate code path (init / update_transfer for block values)
+template<int B, template<class> class SRelax> static void cpr_block_case(const Pattern &pb, hx::Rng &rng, int active_blocks, const char *sname) { hx::run_case(std::string("cpr-blockvalued/")+sname+"/b"+std::to_string(B)+"/act"+std::to_string(active_blocks)+"/"+pb.name, [&]() { hx::Rng r2(rng.s); int nb=pb.n, n=nb*B;
+    SCrs K; K.n=K.m=n; K.ptr.push_back(0); for (int I=0;I<nb;++I) for (int r=0;r<B;++r) { for (ptrdiff_t k=pb.ptr[I];k<pb.ptr[I+1];++k) for (int c=0;c<B;++c) { int i=I*B+r, j=pb.col[k]*B+c; double v = i==j ? 6.0+r2.below(4)/2.0+B : (pb.col[k]==I ? (r2.below(5)-2)/4.0+(r>c?0.125:0.0) : -(1+r2.below(6))/8.0); if (v==0 && i!=j) v=0.125; K.col.push_back(j); K.val.push_back(scalar(v)); } K.ptr.push_back(K.col.size()); }
+    auto Km=hx::to_amgcl(K); typedef amgcl::static_matrix<scalar,B,B> Blk; typedef be::builtin<Blk> BB; typedef amgcl::relaxation::as_preconditioner<BE,amgcl::relaxation::spai0> PP; typedef amgcl::relaxation::as_preconditioner<BB,SRelax> SPc; typedef amgcl::preconditioner::cpr<PP,SPc> CPR; typename CPR::params prm; prm.active_rows = active_blocks;
+    CPR C(amgcl::adapter::block_matrix<Blk>(*Km),prm); int Nb = active_blocks ? active_blocks : nb; Mat Kd=K.dense(); Vec f=hx::sym_vector("f",n);
+    { Mat F=dense_of(*C.Fpp); hx::require("block-valued CPR: weighting operator has one row per active block", (int)F.size()==Nb && (int)F[0].size()==Nb*B); Vec got, ref; for (int ip=0;ip<Nb;++ip) for (int j=0;j<B;++j) { scalar s=0; for (int i=0;i<B;++i) s+=F[ip][ip*B+i]*Kd[ip*B+i][ip*B+j]; got.push_back(s); ref.push_back(scalar(j==0?1:0)); } hx::prove_eq_vec("block-valued CPR: weighting row * diagonal block = e_1^T (first row of the inverse of the diagonal block)", got, ref);
+      Mat App=dense_of(C.P->system_matrix()); Vec g2, r2v; for (int ip=0;ip<Nb;++ip) for (int jp=0;jp<Nb;++jp) { scalar s=0; for (int i=0;i<B;++i) s+=F[ip][ip*B+i]*Kd[ip*B+i][jp*B]; g2.push_back(App[ip][jp]); r2v.push_back(s); } hx::prove_eq_vec("block-valued CPR: pressure matrix = weighted first-unknown columns of A", g2, r2v); }
+    auto act=[&](const CPR &Cx) { NV F=hx::to_numa(f), X(n,false); for (int i=0;i<n;++i) X[i]=hx::junk("x"+std::to_string(i)); auto Fb=be::reinterpret_as_rhs<Blk>(F); auto Xb=be::reinterpret_as_rhs<Blk>(X); Cx.apply(Fb,Xb); return hx::to_vec(X); };
+    Vec x=act(C); { bool clean=true; for (auto &v : x) clean=clean&&hx::independent_of(v,"junk_"); hx::require("block-valued CPR: apply() does not depend on the old content of x", clean); }
+    { NV F=hx::to_numa(f), S1(n,false); for (int i=0;i<n;++i) S1[i]=scalar(0); auto Fb=be::reinterpret_as_rhs<Blk>(F); auto Sb=be::reinterpret_as_rhs<Blk>(S1); C.S->apply(Fb,Sb); Vec s1=hx::to_vec(S1); Vec As=mv(Kd,s1), rs(n); for (int i=0;i<n;++i) rs[i]=f[i]-As[i]; Mat Fd=dense_of(*C.Fpp); Vec rsa(rs.begin(),rs.begin()+Nb*B); Vec rp=mv(Fd,rsa); NV RP=hx::to_numa(rp), XP(Nb,false); for (int i=0;i<Nb;++i) XP[i]=scalar(0); C.P->apply(RP,XP); Vec ref=s1; for (int ip=0;ip<Nb;++ip) ref[ip*B]=ref[ip*B]+XP[ip];
+      hx::prove_eq_vec("block-valued CPR: x = S f + Scatter P (Fpp (f - A S f)), correction injected into the first unknown of each active block", x, ref); }
+    { C.partial_update(amgcl::adapter::block_matrix<Blk>(*Km),true); Vec x2=act(C); hx::prove_eq_vec("block-valued CPR: partial update with the unchanged matrix leaves the action unchanged", x2, x); C.partial_update(amgcl::adapter::block_matrix<Blk>(*Km),false); Vec x3=act(C); hx::prove_eq_vec("block-valued CPR: partial update (transfer operators kept) with the unchanged matrix leaves the action unchanged", x3, x); } }); }
 
 // deflated solver: projection leaves a residual orthogonal to every deflation vector; solve is truthful for the original system
 static void deflated_case(const Pattern &p, hx::Rng &rng, int nvec, int k) { hx::CaseOptions coo; coo.max_paths=10; coo.max_depth=160; hx::run_case("deflated/nvec"+std::to_string(nvec)+"/k"+std::to_string(k)+"/"+p.name, [&]() { hx::Rng r2(rng.s); SCrs A=hx::mmatrix(p,r2); int n=p.n; auto Am=hx::to_amgcl(A);
@@ -73,10 +94,12 @@ int main(int argc, char **argv) {
     hx::parse_args(argc,argv); bool T=hx::thorough(); hx::Rng rng(hx::args().seed);
     hx::encodes("preconditioner::schur_pressure_correction<U,P>::init / apply / spmv (types 1 and 2, adjust_p 0/1/2, simplec_dia on/off) with exact inner solvers; preconditioner::cpr<P,S>::first_scalar_pass / init / apply / partial_update / invert; deflated_solver::init / project / operator()");
     hx::assume_note("L-mode: concrete dyadic matrices (nonsymmetric diagonally dominant for Schur/CPR, SPD for deflation), right-hand sides symbolic; inner solvers of the Schur preconditioner are exact (skyline LU for U; a dense exact solve of the operator the preconditioner itself exposes for P)");
-    hx::assume_note("NOT covered: cpr_drs, CPR with block-valued input versus scalar input with block_size (separate code path), pmask pattern strings (parameter parsing)");
+    hx::assume_note("NOT covered: cpr_drs, pmask pattern strings (parameter parsing)");
     for (auto &p : std::vector<Pattern>{hx::dense_pattern(3,3),hx::band_pattern(4,1),hx::dense_pattern(4,4)}) { int n=p.n; for (unsigned mask=1; mask+1<(1u<<n); ++mask) for (int type=1;type<=2;++type) for (int adj=0;adj<3;++adj) { if (!T && p.nnz()==16 && (mask%3!=1)) continue; schur_case(p,rng,mask,type,adj,(mask+adj)%2); } }
     if (T) { Pattern p=hx::random_pattern(5,5,rng,2,true); for (unsigned mask=1; mask+1<32; ++mask) schur_case(p,rng,mask,1+(mask%2),mask%3,mask%2); }
-    for (int B=2;B<=(T?4:3);++B) for (auto &pb : std::vector<Pattern>{hx::dense_pattern(2,2),hx::band_pattern(3,1)}) { cpr_case(pb,rng,B,0); if (pb.n==3) cpr_case(pb,rng,B,2); }
+    // the global stage S: ILU(0) is EXACT on these small block patterns (the pressure stage then sees a zero residual), SPAI-0 is not
+    for (int B=2;B<=(T?4:3);++B) for (auto &pb : std::vector<Pattern>{hx::dense_pattern(2,2),hx::band_pattern(3,1)}) { cpr_case<amgcl::relaxation::spai0>(pb,rng,B,0,"spai0"); cpr_case<amgcl::relaxation::ilu0>(pb,rng,B,0,"ilu0"); if (pb.n==3) { cpr_case<amgcl::relaxation::spai0>(pb,rng,B,2,"spai0"); cpr_case<amgcl::relaxation::ilu0>(pb,rng,B,2,"ilu0"); } }
+    for (auto &pb : std::vector<Pattern>{hx::dense_pattern(2,2),hx::band_pattern(3,1)}) { cpr_block_case<2,amgcl::relaxation::spai0>(pb,rng,0,"spai0"); cpr_block_case<3,amgcl::relaxation::spai0>(pb,rng,0,"spai0"); cpr_block_case<2,amgcl::relaxation::ilu0>(pb,rng,0,"ilu0"); if (pb.n==3) cpr_block_case<2,amgcl::relaxation::spai0>(pb,rng,2,"spai0"); if (T) cpr_block_case<4,amgcl::relaxation::spai0>(pb,rng,0,"spai0"); }
     for (auto &p : std::vector<Pattern>{hx::grid_pattern(3,2),hx::band_pattern(7,1)}) for (int nvec=1;nvec<=(T?3:2);++nvec) deflated_case(p,rng,nvec,1);
     return hx::finish();
 }
